@@ -96,6 +96,8 @@ def cases(seed, tier):
                 d["gdclass"] = "default_tol"   # adam's normalised steps leave a warm start; x_rtol=1e-9 is then not reached in 6000 steps
             d["dtype"] = "float64"
             d["f_tol"], d["x_tol"], d["rtol"] = None, None, None
+        # the method name as the caller spells it (names are case-insensitive)
+        d["spell"] = rng.choice(["lower"] * 5 + ["upper", "title", "mixed"])
         out.append(d)
     # ---- directed: a far, badly scaled initial guess (|f(y0)| ~ 1e4 .. 1e8) with tight absolute tolerances: whatever the first
     # residual was, a silent return must meet f_tol at the returned point (no must-be-silent demand from such a start)
@@ -145,6 +147,16 @@ def cases(seed, tier):
 
 def _norm(t):
     return float(torch.linalg.vector_norm(t.detach().reshape(-1)))
+
+
+def _spell(name, how):
+    if how == "upper":
+        return name.upper()
+    if how == "title":
+        return name.title()
+    if how == "mixed":
+        return "".join(c.upper() if i % 2 else c for i, c in enumerate(name))
+    return name
 
 
 def run_case(desc):
@@ -237,7 +249,7 @@ def run_case(desc):
     y0_in = y0.clone()
     with WarnLog() as wl:
         try:
-            y = fn(pres.fcn, y0_in, params=pres.params, method=method, **opts)
+            y = fn(pres.fcn, y0_in, params=pres.params, method=_spell(method, desc.get("spell")), **opts)
         except Exception as e:
             obs.exc_violation("call:%s:%s:%s" % (cfg, family, "y0root" if y0_is_root else mode), e, dtype=str(dt),
                               special=special, n=desc["n"], batch=list(batch))
